@@ -10,9 +10,11 @@ import Isotp.Proofs.C09
         no validity hypothesis); `Address(...)` only builds well-formed addresses.
   * §2  a frame that is not for me is never given to `_process_rx`: the rx loop treats it exactly
         like the same clock advance without a frame (only the `.rx` trace entry and the
-        `received` counter differ).
+        `received` counter differ), one frame (`ignored_frame*`) or a whole inbox
+        (`ignored_inbox`); a frame that is for me is given to `_process_rx` (`accepted_frame`).
   * §3  every frame built by `_make_tx_msg` / `_make_flow_control` / the transmit FSM carries the
-        documented identifier, identifier type and payload prefix; invariant for the standby message.
+        documented identifier, identifier type and payload prefix; invariant for the standby
+        message; the same for a whole `process()` call and for every reachable state.
   * §4  documented frames are accepted by the mirrored address.
   * §5  Functional target address type in `send()`.
 -/
@@ -107,6 +109,23 @@ theorem ignored_frame (doTx : Bool) (s : State) (st : Stats) (dt : Nat) (m : Can
 example : Spec.receptionCondition exState.addr.rx { id := 0x18DA55AB, ext := true, data := [2, 1, 2] } = false := by
   decide
 
+/-- **C09.3a'** (the other direction of "if and only if") A frame that meets the reception
+    condition is given to `_process_rx` (in the state reached after reading it), and is counted
+    in `processed`. -/
+theorem accepted_frame (doTx : Bool) (s : State) (st : Stats) (dt : Nat) (m : CanMsg)
+    (rest : List (Nat × CanMsg)) (h : Spec.receptionCondition s.addr.rx m = true) :
+    rxLoop doTx s st ((dt, m) :: rest) =
+      (let r := (skipFrame s dt m rest).processRx m
+       let st1 : Stats := { st with received := st.received + 1, processed := st.processed + 1 }
+       let st' : Stats := if r.2.2 then { st1 with frames := st1.frames + 1 } else st1
+       if r.2.1 then (r.1, st', false)
+       else if doTx && r.1.txTimeDriven then (r.1, st', true)
+       else rxLoop doTx r.1 st' rest) :=
+  rxLoop_accepted doTx s st dt m rest (by rw [isForMe_iff]; exact h)
+
+example : Spec.receptionCondition exState.addr.rx { id := 0x18DA55AA, ext := true, data := [2, 1, 2] } = true := by
+  decide
+
 /-- **C09.3b** `skipFrame` (what happened to the state while the foreign frame was read) and `tick`
     (the same clock advance and `_check_timeouts_rx` with no frame at all) agree on every field of
     the state except the trace `log` and the bus-side `inbox`: whatever values are put in these two
@@ -169,6 +188,24 @@ theorem ignored_frame_log (s : State) (dt : Nat) (m : CanMsg) (rest : List (Nat 
   by_cases hto : s.timerCf.timedOut (s.now + dt) = true
   · exact ⟨[Ev.err (s.now + dt) .ConsecutiveFrameTimeout], by simp [hto]⟩
   · exact ⟨[], by simp [hto]⟩
+
+/-- **C09.3e** A whole burst of foreign frames. If no frame of the inbox meets the reception
+    condition (and the transmit FSM has no time-driven work that would make the loop return
+    early), the rx loop of `process` ends in a state that agrees, on every field except the trace
+    and the inbox, with simply waiting for the same delays (`idleFor`: clock advance and
+    `_check_timeouts_rx` each time); it does not ask for another pass, and of the statistics only
+    `received` moved (by the number of frames). -/
+theorem ignored_inbox (doTx : Bool) (s : State) (st : Stats) (inbox : List (Nat × CanMsg))
+    (hall : ∀ x ∈ inbox, Spec.receptionCondition s.addr.rx x.2 = false)
+    (htd : (doTx && s.txTimeDriven) = false) :
+    Agree (rxLoop doTx s st inbox).1 (idleFor s (inbox.map (·.1))).checkTimeoutsRx ∧
+    (rxLoop doTx s st inbox).2 = ({ st with received := st.received + inbox.length }, false) :=
+  rxLoop_all_ignored doTx inbox s st (fun x hx => by rw [isForMe_iff]; exact hall x hx) htd
+
+example : (∀ x ∈ [(5, ({ id := 0x18DA55AB, ext := true, data := [2, 1, 2] } : CanMsg)),
+                  (7, { id := 0x123, ext := false, data := [0x10, 0x0A, 1, 2, 3, 4, 5, 6] })],
+      Spec.receptionCondition exState.addr.rx x.2 = false) ∧ (true && exState.txTimeDriven) = false := by
+  decide
 
 /-! ## §3 Emitted frames carry the documented identifier, identifier type and prefix -/
 
@@ -234,7 +271,7 @@ theorem standbyOk_processTx (s : State) (hs : StandbyOk s) :
     StandbyOk s.processTx.1 ∧ s.processTx.1.addr = s.addr := by
   generalize hres : s.processTx = res
   obtain ⟨s', out, imm⟩ := res
-  obtain ⟨⟨ha, hsb⟩, _⟩ := processTx_spec s s' out imm hres
+  obtain ⟨⟨⟨ha, hsb⟩, _⟩, _⟩ := processTx_spec s s' out imm hres
   refine ⟨?_, ha⟩
   intro msg hm
   simp only [] at hm ⊢
@@ -257,6 +294,46 @@ theorem emit_processTx (s : State) (hs : StandbyOk s) (msg : CanMsg)
   · exact h'
 
 example : StandbyOk exState := standbyOk_init _ _
+
+/-- **C09.4g** A whole `process()` call: the invariant and the address are preserved, and every
+    frame handed to `txfn` during the call (the new `.tx` entries of the trace) is a documented
+    frame of the transmit address. -/
+theorem emit_process (s : State) (doRx doTx : Bool) (hs : StandbyOk s) :
+    (s.process doRx doTx).1.addr = s.addr ∧ StandbyOk (s.process doRx doTx).1 ∧
+    ∀ t m, Ev.tx t m ∈ (s.process doRx doTx).1.log →
+      Ev.tx t m ∈ s.log ∨ Spec.EmittedFrameOkAny s.addr.tx m := by
+  have hg : Good s.addr s.log s := ⟨rfl, hs, fun _ _ h => Or.inl h⟩
+  obtain ⟨ha, hsb, hl⟩ := process_good s doRx doTx hg
+  refine ⟨ha, ?_, hl⟩
+  intro msg hm
+  rw [ha]
+  exact hsb msg hm
+
+/-- **C09.4h** In every state reachable from a freshly constructed layer through the public
+    operations (and the micro-steps of `process`), every frame that was handed to `txfn` and the
+    frame parked in `standby` are documented frames of the transmit address. No hypothesis on the
+    address or the parameters. -/
+theorem reachable_frames_ok (c : Cfg) (a : Addr) (s : State) (hr : Reach c a s) :
+    s.addr = a ∧ StandbyOk s ∧ ∀ t m, Ev.tx t m ∈ s.log → Spec.EmittedFrameOkAny a.tx m := by
+  obtain ⟨ha, hsb, hl⟩ := reach_good c a s hr
+  refine ⟨ha, ?_, ?_⟩
+  · intro msg hm; rw [ha]; exact hsb msg hm
+  · intro t m hm
+    rcases hl t m hm with h | h
+    · simp at h
+    · exact h
+
+example : Reach {} exState.addr
+    (((exState.send { id := 0, size := 3, src := [1, 2, 3], tat := some .functional }).1).process true true).1 :=
+  Reach.process _ _ (Reach.send _ Reach.init)
+
+/-- a concrete run: a 3-byte functional request on the normal fixed example address -/
+def exRun : State :=
+  (((exState.send { id := 0, size := 3, src := [1, 2, 3], tat := some .functional }).1).process true true).1
+
+-- it hands exactly one frame to `txfn`: identifier `0x18DB<TA><SA>`, 29-bit, Single Frame
+example : exRun.log.filterMap (fun e => match e with | .tx _ m => some (m.id, m.ext, m.data) | _ => none)
+    = [(0x18DBAA55, true, [3, 1, 2, 3])] := by decide +kernel
 
 /-! ## §4 Mirrored peers understand each other -/
 
@@ -309,6 +386,15 @@ theorem processTx_accepted_by_mirror (s : State) (hs : StandbyOk s) (hw : s.addr
   rcases emit_processTx s hs msg h with h' | h'
   · exact mirror_isForMe _ _ _ hw h'
   · exact mirror_isForMe _ _ _ hw h'
+
+/-- **C09.5d** For a layer built on a well-formed transmit address, every frame ever handed to
+    `txfn` in a reachable state is accepted by a layer configured with the mirrored address. -/
+theorem reachable_accepted_by_mirror (c : Cfg) (a : Addr) (s : State) (hr : Reach c a s)
+    (hw : a.tx.txWf = true) (t : Nat) (m : CanMsg) (hm : Ev.tx t m ∈ s.log) :
+    (Spec.mirror a.tx).isForMe m = true := by
+  rcases (reachable_frames_ok c a s hr).2.2 t m hm with h | h
+  · exact mirror_isForMe _ _ _ hw h
+  · exact mirror_isForMe _ _ _ hw h
 
 /-! ## §5 Functional target address type -/
 
@@ -404,9 +490,11 @@ end Isotp.C09
 #print axioms Isotp.C09.mkAddress_wf
 #print axioms Isotp.C09.emittedId_bitwise
 #print axioms Isotp.C09.ignored_frame
+#print axioms Isotp.C09.accepted_frame
 #print axioms Isotp.C09.ignored_frame_state
 #print axioms Isotp.C09.ignored_frame_fields
 #print axioms Isotp.C09.ignored_frame_log
+#print axioms Isotp.C09.ignored_inbox
 #print axioms Isotp.C09.emit_id_prefix
 #print axioms Isotp.C09.emit_flowControl
 #print axioms Isotp.C09.emit_startTx
@@ -415,11 +503,14 @@ end Isotp.C09
 #print axioms Isotp.C09.standbyOk_startTx
 #print axioms Isotp.C09.standbyOk_processTx
 #print axioms Isotp.C09.emit_processTx
+#print axioms Isotp.C09.emit_process
+#print axioms Isotp.C09.reachable_frames_ok
 #print axioms Isotp.C09.functional_same_id
 #print axioms Isotp.C09.mirror_accepts_spec
 #print axioms Isotp.C09.mirror_accepts
 #print axioms Isotp.C09.mkAddress_txWf
 #print axioms Isotp.C09.processTx_accepted_by_mirror
+#print axioms Isotp.C09.reachable_accepted_by_mirror
 #print axioms Isotp.C09.functional_send_rejected
 #print axioms Isotp.C09.functional_send_queued
 #print axioms Isotp.C09.functional_fits_single_frame
